@@ -35,6 +35,9 @@ ASSUMPTIONS = [
 DOC_KW = dict(depth=3, zones=True, comments=True, max_nodes=5, meta_zones=True)
 AVOID = frozenset({"comment_after_empty"})
 
+# freedoms the reader grants but C03's statement does not list: where comments that follow end up is layout, and with the
+# fences in the key's column (GH#259) a following comment belongs to the enclosing block, not to the block holding the zone
+NOT_LISTED_IN_C03 = ["zone_fence_at_key_column"]
 _N = {"n": 0}
 
 
@@ -111,6 +114,8 @@ def shard(ctx: Ctx, sh: int, nshards: int, per_shard: int) -> Stats:
         i = counter[0]
         counter[0] += 1
         for sp in docprop.spellings_for(i, ctx.shard_seed(sh), ctx.pick(2, 4), curly=False):
+            if sp["k"] != "canon":
+                sp = {**sp, "deny": NOT_LISTED_IN_C03}
             text, info = docprop.render_case(doc, sp)
             nt = bool(_nontrivial_sp(doc, sp, text, info))
             labels = ["sp_" + sp["k"]] + ["used_" + k for k in info["used"]] + (sorted(model.features(doc)) if sp["k"] == "canon" else [])
